@@ -84,8 +84,11 @@ class Platform:
         System includes do not include the rootdir, while local includes
         do.
         """
+        # The result depends on the directory of the including file and on
+        # the form of the directive, not only on the spelling of the name.
+        key = (filename, this_path, is_system_include)
         try:
-            return self.found_incl[filename]
+            return self.found_incl[key]
         except KeyError:
             pass
 
@@ -100,9 +103,9 @@ class Platform:
             test_path = os.path.abspath(os.path.join(path, filename))
             if os.path.isfile(test_path):
                 include_file = test_path
-                self.found_incl[filename] = include_file
+                self.found_incl[key] = include_file
                 return include_file
 
         if include_file is None:
-            self.found_incl[filename] = None
+            self.found_incl[key] = None
             return None
